@@ -5,7 +5,8 @@
     model runs on zero bytes of those sizes (the byte-for-byte comparison on
     real data is the harness's oracle). *)
 From Coq Require Import List NArith Bool.
-From Verif Require Import Lib.Bytes Sni.Wire Sni.Hello Sni.Stream Sni.StreamClose Gen.StreamConsts.
+From Verif Require Import Lib.Bytes Sni.Wire Sni.Hello Sni.Handover Sni.Stream Sni.StreamClose
+  Gen.StreamConsts Gen.HelloConsts.
 Import ListNotations.
 Local Open Scope N_scope.
 
@@ -64,7 +65,11 @@ Inductive scase :=
 | KReply (cap len : N) (ok : bool) (n : N) (aliased : bool)
 | KPipe (writes reads chunks : list N)
 | KWriteFail (sizes : list N) (ns : list N) (failed : bool)
-| KClose (mode : N) (client_closes : bool) (first_ended later_ended : bool).
+| KClose (mode : N) (client_closes : bool) (first_ended later_ended : bool)
+(** the front stage alone: TLSHelloConn on a scripted connection; per run the
+    caller buffer size, the sizes the Reads returned, and how they ended
+    (1 = io.EOF) *)
+| KStage (input : bytes) (sched : list N) (runs : list (N * list N * N)).
 
 Definition check_case (c : scase) : bool :=
   match c with
@@ -110,6 +115,20 @@ Definition check_case (c : scase) : bool :=
   | KPipe writes reads chunks =>
       let '(outs, _) := pipe_reads reads (map zeros writes) in
       list_eqb N.eqb (map lenN outs) chunks
+  | KStage input sched runs =>
+      match sniff gen_hello_buf_size (br_new (mkConn input sched false)) with
+      | Ok (_, b1) =>
+          forallb (fun run : N * list N * N =>
+                     let '(m, chunks, ended) := run in
+                     match hc_reads gen_read_handover gen_hello_buf_size
+                                    (repeat m (List.length chunks)) (hc_start 0 b1) with
+                     | Some (cs, e, _) =>
+                         list_eqb N.eqb (map lenN cs) chunks &&
+                         (match e with None => 0 | Some REof => 1 | Some _ => 7 end =? ended)
+                     | None => false
+                     end) runs
+      | _ => false
+      end
   | KClose mode client_closes first_ended later_ended =>
       let p := corr_policy mode in
       let s0 := fire p (if client_closes then EClientClose else EAppClose) cinit in
